@@ -1,8 +1,11 @@
 """C12 - predicates and symbolic functions agree between concrete and symbolic calls.
 
 IR: {"kind":"function"|"predicate", "params":[{"name","default":None|int}], "call":[{"how":"pos"|"kw"|"omit","arg":A}],
-     "doms":[[a-values of distinct items]...], "weights":[ints]}
+     "doms":[[a-values of distinct items]...], "weights":[ints], "plain":[bool per variable], "pre": bool}
+  plain variable = let(int, values) ranging over the values themselves (0 is falsy); pre = an always-true condition on
+  the first used variable is written before the call, so the variable is bound when the call is evaluated
   A = {"v": var index} | {"va": var index} (the variable's .a attribute) | {"c": int}
+    | {"g": var index}  (a nested symbolic call half(value) whose result, 0 for the values 0 and 1, is the argument)
 """
 from __future__ import annotations
 
@@ -55,8 +58,9 @@ class C12(Check):
     rule = (
         "Hypothesis draws a signature (1-4 parameters, trailing defaults), compiled from generated source as a "
         "@symbolic_function and as a Predicate dataclass, and a call shape (each argument positional, keyword or "
-        "omitted-with-default; each a query variable, an attribute of one, or a concrete value; the same variable may "
-        "occur in several positions), with 1-2 variables over domains of 0-4 objects. Oracle: an all-concrete call "
+        "omitted-with-default; each a query variable, an attribute of one, a nested symbolic call, or a concrete value; the same variable may "
+        "occur in several positions), with 1-2 variables over domains of 0-4 objects or of plain ints including 0, "
+        "optionally after an always-true condition that binds the first variable. Oracle: an all-concrete call "
         "runs the body once and returns the plain result; a call with a variable returns a SymbolicExpression and "
         "the body's log stays empty; evaluating it as the only condition returns exactly the bindings for which "
         "the concrete call is truthy and logs exactly one invocation per candidate binding with every parameter "
@@ -64,7 +68,7 @@ class C12(Check):
         "both truth values occur. Distinct = distinct IR."
     )
     assumptions = [
-        "the call is the only condition of the query, so 'candidate binding' = an element of the product of the variable arguments' domains",
+        "the call is the only condition of the query besides an optional always-true one, so 'candidate binding' = an element of the product of the variable arguments' domains",
         "the body is a deterministic function of its argument values",
     ]
     budget = {
@@ -84,6 +88,7 @@ class C12(Check):
                 st.integers(0, n_vars - 1).map(lambda i: {"v": i}),
                 st.integers(0, n_vars - 1).map(lambda i: {"va": i}),
                 st.integers(0, 4).map(lambda c: {"c": c}),
+                st.integers(0, n_vars - 1).map(lambda i: {"g": i}),
             )
             n_pos = draw(st.integers(0, n))
             call = []
@@ -101,7 +106,8 @@ class C12(Check):
                     c["arg"] = {"c": draw(st.integers(0, 4))}
             kw_order = draw(st.permutations([i for i, c in enumerate(call) if c["how"] == "kw"]))
             return dict(kind=draw(st.sampled_from(["function", "predicate"])), params=params, call=call, doms=doms,
-                        weights=[draw(st.integers(1, 2)) for _ in range(n)], kw_order=list(kw_order))
+                        weights=[draw(st.integers(1, 2)) for _ in range(n)], kw_order=list(kw_order),
+                        plain=[draw(st.sampled_from([False, False, True])) for _ in range(n_vars)], pre=draw(st.sampled_from([False, False, True])))
 
         return ir()
 
@@ -127,24 +133,40 @@ class C12(Check):
             target = _make(ir)
         except Exception as exc:
             return crash(exc, "defining predicate/function", classes=classes)
-        items = [[Item(a=a) for a in dom] for dom in ir["doms"]]
+        plain = ir.get("plain") or [False] * len(ir["doms"])
+        items = [list(dom) if plain[vi] else [Item(a=a) for a in dom] for vi, dom in enumerate(ir["doms"])]
         for vi, its in enumerate(items):
             for it in its:
-                it._label = (vi, it.a)
-        variables = [let(Item, its, name=f"x{vi}") for vi, its in enumerate(items)]
+                if not plain[vi]:
+                    it._label = (vi, it.a)
+        variables = [let(int if plain[vi] else Item, its, name=f"x{vi}") for vi, its in enumerate(items)]
+        classes += ["plain_value_variable"] * any(plain[i] for i in used_vars)
+        classes += ["falsy_value_of_bound_argument"] * any(plain[i] and 0 in ir["doms"][i] and (ir.get("pre") or same_var_twice) for i in used_vars)
+
+        from krrood.entity_query_language.predicate import symbolic_function
+
+        @symbolic_function
+        def half(value):
+            return value // 2
+
+        classes += ["nested_symbolic_call_argument"] * any("g" in c["arg"] for c in ir["call"] if c["how"] != "omit")
 
         def arg_node(a):
+            if "g" in a:
+                return half(variables[a["g"]] if plain[a["g"]] else variables[a["g"]].a)
             if "v" in a:
                 return variables[a["v"]]
             if "va" in a:
-                return variables[a["va"]].a
+                return variables[a["va"]] if plain[a["va"]] else variables[a["va"]].a
             return a["c"]
 
         def arg_value(a, binding):
+            if "g" in a:
+                return _value_of(binding[a["g"]]) // 2
             if "v" in a:
                 return binding[a["v"]]
             if "va" in a:
-                return binding[a["va"]].a
+                return binding[a["va"]] if plain[a["va"]] else binding[a["va"]].a
             return a["c"]
 
         pos = [arg_node(c["arg"]) for c in ir["call"] if c["how"] == "pos"]
@@ -164,6 +186,9 @@ class C12(Check):
 
         def freeze(d):
             return tuple((k, getattr(v, "_label", v)) for k, v in sorted(d.items()))
+
+        def label(vi, o):
+            return (vi, o) if plain[vi] else o._label
 
         if not symbolic:
             want = params_for({})
@@ -188,16 +213,21 @@ class C12(Check):
         if LOG:
             return fail("ran_at_construction", f"body ran while building the condition: {LOG[:3]}", classes=classes)
         sel = [variables[i] for i in used_vars]
+        conds = [res]
+        if ir.get("pre"):
+            first = variables[used_vars[0]]
+            conds.insert(0, (first if plain[used_vars[0]] else first.a) >= 0)  # holds for every candidate
+            classes.append("condition_before_the_call")
         try:
-            rows = [tuple(r[v] for v in sel) for r in an(set_of(sel, res)).evaluate()]
+            rows = [tuple(r[v] for v in sel) for r in an(set_of(sel, *conds)).evaluate()]
         except Exception as exc:
             return crash(exc, "evaluating", classes=classes)
         candidates = [dict(zip(used_vars, combo)) for combo in itertools.product(*[items[i] for i in used_vars])]
         want_calls = Counter(freeze(params_for(b)) for b in candidates)
         got_calls = Counter(freeze(d) for d in LOG)
-        want_rows = Counter(tuple(b[i]._label for i in used_vars) for b in candidates
+        want_rows = Counter(tuple(label(i, b[i]) for i in used_vars) for b in candidates
                             if _truth(ir["weights"], [params_for(b)[n] for n in names]))
-        got_rows = Counter(tuple(o._label for o in row) for row in rows)
+        got_rows = Counter(tuple(label(i, o) for i, o in zip(used_vars, row)) for row in rows)
         truths = {bool(_truth(ir["weights"], [params_for(b)[n] for n in names])) for b in candidates}
         nontrivial = (pos_var or default_used) and truths == {True, False}
         if got_calls != want_calls:
